@@ -35,6 +35,129 @@ MS = "bempp_cl/api/space/maxwell_spaces.py"
 SP = "bempp_cl/api/space/space.py"
 
 
+def _table_arg(fn, callee, pos, what):
+    """The literal table passed at position `pos` of the call of `callee` in fn: its defining assignment."""
+    cs = [c for c in ast.walk(fn) if isinstance(c, ast.Call) and unparse(c.func).split(".")[-1] == callee]
+    if len(cs) != 1 or len(cs[0].args) <= pos or not isinstance(cs[0].args[pos], ast.Name):
+        raise AnalysisError("%s: the %s table is not passed by name to %s" % (fn.name, what, callee))
+    st = _find_assign(fn, cs[0].args[pos].id)
+    if st is None:
+        raise AnalysisError("%s: %s table `%s` has no defining assignment" % (fn.name, what, cs[0].args[pos].id))
+    return st
+
+
+def _affine(node, defs, syms, first=False):
+    """Exact affine form {symbol: coefficient, 1: constant} of an integer index expression over the loop variables
+    `syms`; first=True evaluates element 0 of a vector expression built from arange(n) and scalars."""
+    if isinstance(node, ast.Constant) and isinstance(node.value, int):
+        return {1: F(node.value)}
+    if isinstance(node, ast.Name):
+        if node.id in syms:
+            return {node.id: F(1)}
+        d = defs.lookup(node.id, node.lineno)
+        if d is None or d[0] != "expr":
+            return None
+        return _affine(d[1], defs, syms, first)
+    if first and isinstance(node, ast.Call) and unparse(node.func) in ("_np.arange", "np.arange") and len(node.args) == 1:
+        return {1: F(0)}
+    if isinstance(node, ast.Subscript) and isinstance(node.slice, ast.Constant) and node.slice.value == 0 and not first:
+        return _affine(node.value, defs, syms, True)
+    if isinstance(node, ast.BinOp) and isinstance(node.op, (ast.Add, ast.Sub, ast.Mult)):
+        a, b = _affine(node.left, defs, syms, first), _affine(node.right, defs, syms, first)
+        if a is None or b is None:
+            return None
+        if isinstance(node.op, ast.Mult):
+            if set(a) <= {1}:
+                a, b = b, a
+            if not set(b) <= {1}:
+                return None
+            c = b.get(1, F(0))
+            out = {k: v * c for k, v in a.items()}
+        else:
+            sg = 1 if isinstance(node.op, ast.Add) else -1
+            out = dict(a)
+            for k, v in b.items():
+                out[k] = out.get(k, F(0)) + sg * v
+        return {k: v for k, v in out.items() if v != 0}
+    return None
+
+
+def _placement(fn, scaled):
+    """generate_*_map: for the position-th support element (index I) and coarse local dof K the 18 values
+    coeffs[K] (row-major: row j = sub-triangle j, column r = its local dof r) go to barycentric dofs
+    18*I .. 18*I+17 = 3*(6*I + j) + r and to coarse dof 3*I + K.  Returns (ok, why, names) where names carries the
+    scaling operands for the RWG variant."""
+    defs = roles.Defs(fn)
+    pa = [a.arg for a in fn.args.args]
+    rets = [s for s in fn.body if isinstance(s, ast.Return)]
+    if len(rets) != 1 or not isinstance(rets[0].value, ast.Tuple) or len(rets[0].value.elts) != 3 or not all(isinstance(e, ast.Name) for e in rets[0].value.elts):
+        return False, "does not return (coarse dofs, barycentric dofs, values) from locals", {}
+    CD, BD, VAL = (e.id for e in rets[0].value.elts)
+    S = roles.stores(fn.body, defs, lv=False)
+    st = {}
+    for nm in (CD, BD, VAL):
+        xs = [s for s in S if s.op == "=" and isinstance(s.tnode, ast.Subscript) and unparse(s.tnode.value) == nm]
+        if len(xs) != 1 or len(xs[0].loops) != 2 or xs[0].guards:
+            return False, "`%s` is not filled by one unguarded store inside (support element, coarse local dof)" % nm, {}
+        st[nm] = xs[0]
+    lE, lK = st[CD].loops
+    if st[BD].loops != (lE, lK) or st[VAL].loops != (lE, lK):
+        return False, "the three stores are not in the same loop nest", {}
+    if not (isinstance(lE.target, ast.Tuple) and len(lE.target.elts) == 2 and isinstance(lK.target, ast.Name) and roles.canon(lE.iter, defs) == "enumerate(%s)" % pa[1]
+            and roles.canon(lK.iter, defs) == "range(3)"):
+        return False, "loops are not `for position, element in enumerate(support_elements)` / `for k in range(3)`", {}
+    I, K = lE.target.elts[0].id, lK.target.id
+    cnt = [s for s in S if s.op == "Add=" and isinstance(s.tnode, ast.Name) and s.loops == (lE, lK) and not s.guards]
+    if len(cnt) != 1 or not (isinstance(cnt[0].vnode, ast.Constant) and cnt[0].vnode.value == 18):
+        return False, "no single running counter advanced by 18 per (element, coarse dof)", {}
+    N = cnt[0].target
+    if not any(isinstance(x, ast.Assign) and unparse(x.targets[0]) == N and isinstance(x.value, ast.Constant) and x.value.value == 0 and x.lineno < lE.lineno for x in fn.body):
+        return False, "the counter does not start at 0", {}
+    for nm in (CD, BD, VAL):
+        s = st[nm]
+        if s.target != roles.expect("A[N:N + 18]", defs, s.node.lineno, lv=False, A=nm, N=N) or s.node.lineno > cnt[0].node.lineno:
+            return False, "`%s` is not written at [count, count + 18) before the counter advances" % nm, {}
+    if _affine(st[CD].vnode, defs, {I, K}) != {I: F(3), K: F(1)}:
+        return False, "coarse dof is `%s`, not 3*position + k" % unparse(st[CD].vnode), {}
+    v = st[BD].vnode
+    if isinstance(v, ast.Name):
+        d = defs.lookup(v.id, v.lineno)
+        v = d[1] if d and d[0] == "expr" else v
+    if not (isinstance(v, ast.Call) and unparse(v.func) in ("_np.arange", "np.arange") and len(v.args) == 2):
+        return False, "barycentric dofs are not a contiguous arange(lo, hi)", {}
+    lo, hi = _affine(v.args[0], defs, {I, K}), _affine(v.args[1], defs, {I, K})
+    if lo != {I: F(18)} or hi != {I: F(18), 1: F(18)}:
+        return False, "barycentric dofs run over [%s, %s), not over [18*position, 18*position + 18) = the 3 dofs of each of the 6 sub-triangles of the element" % (lo, hi), {}
+    val = st[VAL].vnode
+    if isinstance(val, ast.Name):
+        d = defs.lookup(val.id, val.lineno)
+        val = d[1] if d and d[0] == "expr" else val
+    if not (isinstance(val, ast.Call) and isinstance(val.func, ast.Attribute) and val.func.attr in ("ravel", "flatten") and not val.args):
+        return False, "values are not the row-major flattening of a 6 x 3 table", {}
+    x = val.func.value
+    if isinstance(x, ast.Name):
+        d = defs.lookup(x.id, x.lineno)
+        x = d[1] if d and d[0] == "expr" else x
+    row = roles.expect("C[K]", defs, st[VAL].node.lineno, lv=False, C=pa[-1], K=K)
+    names = {}
+    if not scaled:
+        if roles.canon(x, defs).replace(" ", "") != row:
+            return False, "values are `%s`, not coeffs[k] flattened" % unparse(x)[:60], {}
+        return True, "", names
+    # coeffs[k] * outer_edges[k] / dof_mult
+    if not (isinstance(x, ast.BinOp) and isinstance(x.op, ast.Div) and isinstance(x.right, ast.Name) and isinstance(x.left, ast.BinOp) and isinstance(x.left.op, ast.Mult)):
+        return False, "values are `%s`, not coeffs[k] * outer_edges[k] / dof_mult" % unparse(x)[:80], {}
+    names["dof_mult"] = x.right.id
+    got = None
+    for a, b in ((x.left.left, x.left.right), (x.left.right, x.left.left)):
+        if roles.canon(a, defs).replace(" ", "") == row and isinstance(b, ast.Subscript) and isinstance(b.value, ast.Name) and isinstance(b.slice, ast.Name) and b.slice.id == K:
+            got = b.value.id
+    if got is None:
+        return False, "values are `%s`, not coeffs[k] * outer_edges[k] / dof_mult" % unparse(x)[:80], {}
+    names["outer_edges"] = got
+    return True, "", names
+
+
 def _find_assign(fn, name):
     for st in ast.walk(fn):
         if isinstance(st, ast.Assign) and len(st.targets) == 1 and isinstance(st.targets[0], ast.Name) and st.targets[0].id == name:
@@ -45,9 +168,7 @@ def _find_assign(fn, name):
 def p1_table(ctx, B, pts):
     m = ctx.repo.mod(SS)
     fn = m.fn("p1_barycentric_continuous_function_space")
-    st = _find_assign(fn, "coeffs")
-    if st is None:
-        raise AnalysisError("p1 barycentric `coeffs` table vanished")
+    st = _table_arg(fn, "generate_p1_map", 2, "coefficient")
     got = bary.frac_table(st.value)
     r = ctx.rule("P1-BARY", "P1 barycentric coefficients: coeffs[k][j][r] == phi_k(vertex r of sub-triangle j)", 3)
     if len(got) != 3 or any(len(t) != 6 or any(len(row) != 3 for row in t) for t in got):
@@ -67,11 +188,13 @@ def p1_table(ctx, B, pts):
                 "literal table differs from the nodal values of coarse function %d on the sub-triangles%s" % (k, detail))
     # placement: 18 values per coarse dof, row-major, starting at bary dof 3*(6*index)
     g = m.fn("generate_p1_map")
-    src = unparse(g).replace(" ", "")
-    okp = ("bary_elements=_np.arange(6)+6*index" in src and "_np.arange(3*bary_elements[0],3*bary_elements[0]+18)" in src
-           and "values[count:count+18]=bary_coeffs.ravel()" in src and "bary_coeffs=coeffs[local_dof]" in src and "coarse_dof=3*index+local_dof" in src)
+    okp, whyp, _ = _placement(g, False)
     r2 = ctx.rule("P1-BARY-PLACE", "generate_p1_map writes row j of coeffs[k] to the dofs of barycentric element 6*index + j, coarse dof 3*index + k", 1)
-    r2.check(okp, "generate_p1_map", SS, "generate_p1_map", g.lineno, "generate_p1_map placement", "placement statements changed shape")
+    r2.check(okp, "generate_p1_map", SS, "generate_p1_map", g.lineno, "generate_p1_map placement", whyp)
+    bad = ast.parse("def g(grid_data, support_elements, coeffs):\n    a = _np.empty(9)\n    b = _np.empty(9)\n    v = _np.empty(9)\n    count = 0\n    for index, e in enumerate(support_elements):\n"
+                    "        for k in range(3):\n            a[count:count + 18] = 3 * index + k\n            b[count:count + 18] = _np.arange(18 * e, 18 * e + 18)\n"
+                    "            v[count:count + 18] = coeffs[k].ravel()\n            count += 18\n    return a, b, v").body[0]
+    r2.must_fire(not _placement(bad, False)[0], "barycentric dofs numbered by element number instead of support position")
 
 
 def dual0(ctx, B):
@@ -228,10 +351,8 @@ def rwg_tables(ctx, B, pts):
     tables = {}
     for fname in ("rwg0_barycentric_function_space", "snc0_barycentric_function_space"):
         fn = m.fn(fname)
-        st = _find_assign(fn, "coeffs")
-        lc = _find_assign(fn, "local_coords")
-        if st is None or lc is None:
-            raise AnalysisError("%s: coeffs/local_coords table vanished" % fname)
+        st = _table_arg(fn, "generate_rwg0_map", 3, "coefficient")
+        lc = _table_arg(fn, "generate_rwg0_map", 2, "local coordinate")
         got = bary.frac_table(st.value)
         tables[fname] = (got, bary.frac_table(lc.value))
         for k in range(3):
@@ -254,10 +375,13 @@ def rwg_tables(ctx, B, pts):
                         idx.append(side.slice.elts[1].value)
                 if len(idx) == 2:
                     seg[stt.targets[0].id] = tuple(idx)
-    dm = _find_assign(g, "dof_mult")
-    oe = _find_assign(g, "outer_edges")
+    okp, whyp, names = _placement(g, True)
+    r4 = ctx.rule("RWG-BARY-PLACE", "generate_rwg0_map scales coeffs[k] by outer_edges[k]/dof_mult and writes row j to barycentric element 6*index + j", 1)
+    r4.check(okp, "generate_rwg0_map", MS, "generate_rwg0_map", g.lineno, "generate_rwg0_map placement", whyp)
+    dm = _find_assign(g, names.get("dof_mult", "dof_mult"))
+    oe = _find_assign(g, names.get("outer_edges", "outer_edges"))
     if dm is None or oe is None:
-        raise AnalysisError("generate_rwg0_map: dof_mult / outer_edges vanished")
+        raise AnalysisError("generate_rwg0_map: the edge-length tables (dof_mult / outer_edges) were not found")
     node = dm.value.args[0] if isinstance(dm.value, ast.Call) else dm.value
     lc = tables["rwg0_barycentric_function_space"][1]  # 2 x 7 (after .T)
     loc = [(lc[0][i], lc[1][i]) for i in range(len(lc[0]))]
@@ -290,12 +414,6 @@ def rwg_tables(ctx, B, pts):
     oes = [c.id if isinstance(c, ast.Name) else None for c in oe.value.elts]
     okoe = len(oes) == 3 and all(segpts(oes[k]) == frozenset([pts["V%d" % el[k][0]], pts["V%d" % el[k][1]]]) for k in range(3))
     r2.check(okoe, "outer_edges", MS, "generate_rwg0_map", oe.lineno, "outer_edges = %s" % unparse(oe.value), "outer_edges[k] is not the length of coarse edge k")
-    src = unparse(g).replace(" ", "")
-    okp = ("dof_coeffs=bary_coeffs*outer_edges[local_dof]/dof_mult" in src and "bary_coeffs=coeffs[local_dof]" in src
-           and "_np.arange(3*bary_elements[0],3*bary_elements[0]+18)" in src and "values[count:count+18]=dof_coeffs.ravel()" in src
-           and "bary_elements=_np.arange(6)+6*index" in src and "coarse_dof=3*index+local_dof" in src)
-    r4 = ctx.rule("RWG-BARY-PLACE", "generate_rwg0_map scales coeffs[k] by outer_edges[k]/dof_mult and writes row j to barycentric element 6*index + j", 1)
-    r4.check(okp, "generate_rwg0_map", MS, "generate_rwg0_map", g.lineno, "generate_rwg0_map placement", "placement/scaling statements changed shape")
 
 
 def compat(ctx):
@@ -303,12 +421,30 @@ def compat(ctx):
     m = ctx.repo.mod(SP)
     fn = m.fn("return_compatible_representation")
     r = ctx.rule("COMPAT-REPR", "return_compatible_representation converts every space when any is barycentric and raises if one has no barycentric form; sparse and singular assemblers call it before reading space tables", 3)
-    src = unparse(fn)
-    has_any = any(isinstance(n, ast.For) or isinstance(n, ast.ListComp) or isinstance(n, ast.GeneratorExp) for n in ast.walk(fn))
-    raises = any(isinstance(n, ast.Raise) for n in ast.walk(fn))
-    calls_bary = "barycentric_representation" in src and "is_barycentric" in src
-    r.check(has_any and raises and calls_bary, "return_compatible_representation", SP, fn.name, fn.lineno, "compatible representation switch",
-            "function no longer tests is_barycentric / converts with barycentric_representation / raises for spaces without one")
+    d = roles.Defs(fn)
+    va = fn.args.vararg.arg if fn.args.vararg else None
+    St = roles.stores(fn.body, d, lv=False)
+    rets = [s for s in St if s.op == "return"]
+    ln = fn.body[-1].lineno
+    ex = lambda src: roles.expect(src, d, ln, lv=False, A=va or "args")
+    anyb = {ex("any([s.is_barycentric for s in A])"), ex("any(s.is_barycentric for s in A)")}
+    conv = {ex("[s.barycentric_representation() for s in A]"), ex("tuple(s.barycentric_representation() for s in A)"), ex("list(s.barycentric_representation() for s in A)")}
+
+    def plain(g):  # guard stack says "no space is barycentric"
+        return len(g) >= 1 and ((g[0][0] in anyb and g[0][1] is False) or (g[0][0] in {"Not(%s)" % a for a in anyb} and g[0][1] is True))
+
+    def bary_branch(g):
+        return len(g) >= 1 and ((g[0][0] in anyb and g[0][1] is True) or (g[0][0] in {"Not(%s)" % a for a in anyb} and g[0][1] is False))
+
+    keep = [s for s in rets if plain(s.guards) and s.value == (va or "")]
+    sw = [s for s in rets if bary_branch(s.guards) and s.value in conv]
+    # a raise for spaces without barycentric form, tested on the converted list, before the converted spaces are returned
+    raises = [n for n in ast.walk(fn) if isinstance(n, ast.If) and any(isinstance(x, ast.Raise) for x in n.body)
+              and roles.canon(n.test, d).replace(" ", "") in {"Not(all(%s))" % c for c in conv}]
+    ok = va is not None and len(keep) == 1 and len(sw) == 1 and len(rets) == 2 and len(raises) == 1 and raises[0].lineno < sw[0].node.lineno
+    r.check(ok, "return_compatible_representation", SP, fn.name, fn.lineno, "compatible representation switch",
+            "expected: return the spaces unchanged iff none is barycentric, otherwise convert EVERY space with barycentric_representation() and raise when one has none "
+            "(unchanged-return ok=%s, all-converted return ok=%s, raise on missing representation ok=%s)" % (len(keep) == 1, len(sw) == 1, len(raises) == 1))
     for rel, fname in (("bempp_cl/core/sparse_assembler.py", "SparseAssembler.assemble"), ("bempp_cl/core/singular_assembler.py", "SingularAssembler.assemble")):
         mm = ctx.repo.mod(rel)
         f = mm.fn(fname)
